@@ -36,7 +36,7 @@ def run_check(prop, tier, only=None, tree=None, jobs=16):
     env = dict(os.environ)
     if tree:
         env["PYTHONPATH"] = tree
-    cmd = "cd %s && ./check %s --tier %s --no-evidence --jobs %d%s" % (HERE, prop, tier, jobs, (" --only '%s'" % only) if only else "")
+    cmd = "cd %s && ./check %s --tier %s --no-evidence --fail-fast --jobs %d%s" % (HERE, prop, tier, jobs, (" --only '%s'" % only) if only else "")
     t0 = time.time()
     p = sh(cmd, env=env)
     out = p.stdout
